@@ -182,6 +182,12 @@ func genWiring(repo string) (string, error) {
 				continue
 			}
 			if ok {
+				// canonical name: a method called on a field of the receiver is "field.<Method>" whatever
+				// the receiver and the field are called (a rename must not change the generated text)
+				if parts := strings.Split(callee, "."); len(parts) == 3 && sd.Recv != nil && len(sd.Recv.List) == 1 &&
+					len(sd.Recv.List[0].Names) == 1 && parts[0] == sd.Recv.List[0].Names[0].Name {
+					callee = "field." + parts[2]
+				}
 				before = append(before, gstr(callee))
 			} else {
 				before = append(before, gstr(fmt.Sprintf("<%T>", x)))
